@@ -763,6 +763,15 @@ pub fn c16_programs(tier: &str) -> Vec<Program> {
         ));
         v.push(with_main("CTL-region", o, vec![], vec![vec![K::StopExploring.into(), fadd(1, 0, MO::Sc), K::Explore.into(), fadd(0, 0, MO::Sc)], vec![swap(0, 1, MO::Sc), swap(1, 2, MO::Sc)]], vec![], vec![]));
     }
+    // the main thread yields (a spin loop, or a plain yield as its last operation): what it saw
+    // before that yield must not restrict its relaxed loads in the next iteration
+    {
+        use crate::ir::*;
+        let o = atomics(2);
+        v.push(with_main("C16-main-spins", o.clone(), vec![], vec![vec![st(1, 1, MO::Rlx), st(0, 1, MO::Rel)]], vec![K::Await { a: 0, mo: MO::Acq, want: 1 }.into(), ld(1, MO::Rlx)], vec![]));
+        v.push(with_main("C16-main-yields-last", o.clone(), vec![], vec![vec![st(1, 1, MO::Rlx), st(0, 1, MO::Rlx)]], vec![ld(0, MO::Rlx), ld(1, MO::Rlx)], vec![K::Yield.into()]));
+        v.push(with_main("C16-main-yields-mid", o, vec![], vec![vec![st(1, 1, MO::Rlx), st(0, 1, MO::Rlx)]], vec![ld(0, MO::Rlx), K::Yield.into(), ld(1, MO::Rlx)], vec![]));
+    }
     // one thread uses two thread-local keys, in either order: the order in which its destructors
     // run (part of the iteration signature) must not depend on which model touched the keys first
     {
